@@ -123,6 +123,10 @@ def rule_r2(repo):
         if repr(values) != 'VALUES':
             rr.fail('Encoder.%s:values' % m, fi.where, 'the first result is %r, not the values gathered from all subsets' % (values,))
         if not (isinstance(all_equal, Sym) and repr(all_equal) == 'cmpEq(m_count(VALUES,V0),NSUB)'):
+            if isinstance(all_equal, Sym) and (codec.sym_has(all_equal, 'MIN') or codec.sym_has(all_equal, 'MAX')):
+                rr.fail('Encoder.%s:all-equal-minmax' % m, fi.where, 'all_equal is computed as %r from minmax(), which skips missing entries: a column mixing one '
+                        'repeated value with missing entries would be written as all-equal and the missing entries lost' % (all_equal,))
+                continue
             if not isinstance(all_equal, bool):
                 raise AnalysisError('%s: all_equal is %r; only `values.count(values[0]) == n_subsets` is modelled' % (m, all_equal))
         eq_true = dec.get('cmpEq(m_count(VALUES,V0),NSUB)')
@@ -210,12 +214,95 @@ def rule_r4(repo):
     return rr
 
 
+def rule_r7(repo):
+    rr = RuleResult('C05.R7', 'an all-equal string column decodes to the same bytes compressed and uncompressed (missing = all ones included)')
+    m = 'process_string_compressed'
+    for val in (b'\xff\xff', b'AB', b'A '):
+        fi, recs, _ = run_primitive(repo, 'Decoder', m, reads=[val], params_over={'nbytes_min_value': 2})
+        hit = False
+        for r in recs:
+            if not r.ok:
+                continue
+            b = r.bindings()
+            if b.get('io1') == 0 or len(r.io()) == 2:
+                hit = True
+                vals = [e[2] for e in r.events if e[0] == 'append' and e[1] == 'decoded_values@subset']
+                if vals != [val]:
+                    rr.fail('Decoder.%s:all-equal' % m, fi.where, 'a 2-byte column whose common value is %r (difference width 0) decodes to %r; uncompressed '
+                            'decoding of the same field gives %r' % (val, vals, val), witness={'value': repr(val)})
+        rr.instance('all-equal string column %r' % (val,))
+        if not hit:
+            raise AnalysisError('Decoder.%s: no all-equal path found' % m)
+    rr.require_floor(3)
+    return rr
+
+
+def rule_state_mode(repo, rule):
+    rr = RuleResult(rule, 'the data section is processed in the mode the header declares: CoderState gets the message\'s compression flag and subset count')
+    import ast as _ast
+    from sa.patheval import Interp, FuncRef, ClassRef
+
+    class TD(Interp):
+        def on_call(self, text, callee, args, kwargs, node, frame):
+            if text == 'CoderState':
+                self.event('state', list(args))
+                return Obj('CoderState', {'decoded_descriptors_all_subsets': Sym('DD'), 'decoded_values_all_subsets': Sym('DV'), 'bitmap_links_all_subsets': Sym('BL'),
+                                          'idx_value': 0})
+            if text == 'bufr_message.build_template':
+                return (Sym('TEMPLATE'), Sym('TG'))
+            if text in ('template_processing_func', 'self.process_template', 'process_compiled_template'):
+                self.event('process', len([e for e in self.path.events if e[0] == 'switch']))
+                return None
+            if text == 'state.switch_subset_context':
+                self.event('switch', args[0] if args else None)
+                return None
+            if text == 'TemplateData':
+                self.event('template_data', list(args))
+                return Obj('TemplateData', {})
+            if text == 'range':
+                return [0, 1, 2] if args and isinstance(args[0], Sym) else self.NOT_HANDLED
+            return self.NOT_HANDLED
+    for coder in ('Decoder', 'Encoder'):
+        fi = repo.own_method(coder, 'process_template_data')
+        for comp in (True, False):
+            it = TD(repo, coder)
+
+            def mk():
+                bm = Obj('BufrMessage', {'is_compressed': Obj('SectionParameter', {'value': comp}), 'n_subsets': Obj('SectionParameter', {'value': Sym('NSUB')})})
+                loc = {'self': Obj(coder, {'compiled_template_manager': None, 'tables_root_dir': Sym('ROOT')}), 'bufr_message': bm}
+                for p in fi.params[2:]:
+                    loc[p] = Sym('BITIO') if p.startswith('bit_') else Obj('SectionParameter', {'value': Sym('INPUT_VALUES')})
+                return loc
+            res = it.run_function(fi, mk, self_class=coder)
+            rr.instance('%s.process_template_data(compressed=%s)' % (coder, comp))
+            for r in res:
+                if not r.ok:
+                    rr.fail('%s.process_template_data:raise' % coder, fi.where, 'raises %s' % r.exc.cls)
+                    continue
+                st = [e[1] for e in r.events if e[0] == 'state']
+                if len(st) != 1 or st[0][0] is not comp or repr(st[0][1]) != 'NSUB':
+                    rr.fail('%s.process_template_data:state-mode' % coder, fi.where,
+                            'with the header flag is_compressed=%s the coder state is created with %s; expected exactly the header\'s flag and subset count' % (
+                                comp, [repr(a) for a in st[0]] if st else 'nothing'), witness={'compressed': comp})
+                proc = [e[1] for e in r.events if e[0] == 'process']
+                sw = [e[1] for e in r.events if e[0] == 'switch']
+                if comp and (len(proc) != 1 or sw):
+                    rr.fail('%s.process_template_data:compressed-once' % coder, fi.where, 'compressed data are processed %d times with %d subset switches (expected once, none)' % (len(proc), len(sw)))
+                if not comp and (proc != [1, 2, 3] or sw != [0, 1, 2]):
+                    rr.fail('%s.process_template_data:per-subset' % coder, fi.where, 'uncompressed data: switches %s, processing after %s switches (expected one switch then one processing per subset)' % (sw, proc))
+                tdv = [e[1] for e in r.events if e[0] == 'template_data']
+                if len(tdv) != 1 or tdv[0][1] is not comp:
+                    rr.fail('%s.process_template_data:template-data-mode' % coder, fi.where, 'TemplateData is built with compression flag %r' % (tdv[0][1] if tdv else None,))
+    rr.require_floor(4)
+    return rr
+
+
 def run(repo, check):
     from sa.rules import c02
-    check.add(rule_r1(repo))
-    check.add(rule_r2(repo))
-    check.add(rule_r3(repo))
-    check.add(rule_r4(repo))
+    check.run_rule(rule_r1, repo)
+    check.run_rule(rule_r2, repo)
+    check.run_rule(rule_r3, repo)
+    check.run_rule(rule_r4, repo)
     r5 = c02.rule_r1(repo, check.tier)
     r5.rule = 'C05.R5'
     r5.title = 'codec symmetry of the compressed primitives (shared with C02.R1)'
@@ -230,6 +317,16 @@ def run(repo, check):
     for f in r6.findings:
         f.rule = 'C05.R6'
     check.add(r6)
+    check.run_rule(rule_r7, repo)
+    check.run_rule(rule_state_mode, repo, 'C05.R8')
+    from sa.rules import c01
+    r9 = c01.rule_r7(repo)
+    r9.rule = 'C05.R9'
+    r9.title = 'missing rules at the compressed decode sites equal the uncompressed ones (shared with C01.R7)'
+    r9.findings = [f for f in r9.findings if 'compressed' in f.key and 'uncompressed' not in f.key]
+    for f in r9.findings:
+        f.rule = 'C05.R9'
+    check.add(r9)
     check.assumptions = ['nbits_for_uint ranges over unbounded integers and is not folded; its argument is checked',
                          'one asymmetry is deliberately not compared: only the code/flag routine re-tests min + difference against the all-ones '
                          'pattern of the element (raw all-ones numerics decode differently compressed / uncompressed; outside the stated raw domain)']
